@@ -41,8 +41,9 @@ class Session:
         rc = d.call("s0", "c", "RunString", text, timeout=timeout)
         if isinstance(rc, dict):          # exit() was called inside the library
             return {"rc": None, "exit": rc["exit"], "err": "", "warn": "", "sel": {}, "heads": {}}
-        o = d.obs("s0", "c", "t")
+        # error/warning strings first: reading table cells (GetSelectedOutputValue) resets the error reporter
         res = {"rc": rc, "err": d.call("s0", "c", "GetErrorString"), "warn": d.call("s0", "c", "GetWarningString"), "sel": {}, "heads": {}}
+        o = d.obs("s0", "c", "t")
         for n, e in o["sel"].items():
             t = e["table"]
             if t:
